@@ -803,7 +803,7 @@ def check(run):
 
     run_witnesses(run, unit, model, d)
 
-    n = 240 if quick else 6000
+    n = 400 if quick else 20000
     cases = []
     # corpus first
     cp = os.path.join(V.ROOT, "corpus", "C04_cases.txt")
@@ -888,7 +888,8 @@ def run_witnesses(run, unit, model, d):
             continue
         text = judge(c, im["steps"])
         if text:
-            run.violation(sig, text, {"kind": "case", "case": c})
+            run.violation(sig, "scenario %s (minimal input of an earlier defect; the cause given in parentheses is the one found then): %s" % (c["id"], text),
+                          {"kind": "case", "case": c})
         for s_, t_ in oracle(c, im["steps"], im.get("state")):
             run.violation(s_, "case %s: %s" % (c["id"], t_), {"kind": "case", "case": c})
         ml = V.run_lines(model, [model_case(c)])[1]
